@@ -47,7 +47,7 @@ def hostile_reply(rng, base, inside, outside, bulk):
     return vbs
 
 
-def model_walk(base, bulk, replies, strict_out):
+def model_walk(base, bulk, replies, strict_out, retries=0):
     """replies: list of ('match', label) | ('end', name). Returns (items, end, asked)
     end: 'stop' | exception name | 'either-stop-or-error'. asked: OIDs requested in order.
     strict_out: reading B (an out-of-subtree OID ends the walk whatever its value)."""
@@ -57,6 +57,9 @@ def model_walk(base, bulk, replies, strict_out):
     for rep in replies:
         asked.append(last)
         if rep[0] == "end":
+            if rep[1] == "TimeoutError" and retries > 0:
+                retries -= 1  # the application keeps using the iterator: same OID asked again
+                continue
             return items, rep[1], asked
         label = rep[1]
         if label["pdu"] == "report":
@@ -118,7 +121,7 @@ class C06(Prop):
         return [("getnext", 3), ("getbulk", 4), ("fetch", 1)]
 
     def expected_counters(self, tier):
-        return ["agent.custom", "probe.out-of-subtree", "probe.non-increasing", "probe.base-itself", "probe.exception-mid-list", "probe.empty-reply", "probe.followup-checked", "probe.multi-request-walk", "probe.readings-differ"]
+        return ["agent.custom", "probe.out-of-subtree", "probe.non-increasing", "probe.base-itself", "probe.exception-mid-list", "probe.empty-reply", "probe.followup-checked", "probe.multi-request-walk", "probe.readings-differ", "probe.walk-retried-after-timeout"]
 
     def gen(self, rng, family, tier):
         flavour = rng.choice(["sync", "async"])
@@ -137,12 +140,14 @@ class C06(Prop):
         base, inside, outside = universe(rng)
         bulk = family == "getbulk" or (family == "fetch" and ver != "v1" and sess.get("allow_bulk", True))
         op = {"id": 1, "s": 0, "op": "walk", "method": family, "oid": gen.oid_text(base), "limit": LIMIT}
+        if rng.random() < 0.3:
+            op["retry"] = rng.randint(1, 3)  # keep iterating after a TimeoutError
         if family == "getbulk":
             op["max_rep"] = rng.choice([1, 3, 10])
         scripts = {}
         for k in range(1, 14):
             r = rng.random()
-            if r < 0.03:
+            if r < (0.15 if op.get("retry") else 0.03):
                 scripts["1:%d" % k] = {"replies": [{"k": "none"}]}
             elif r < 0.06 and ver == "v3":
                 scripts["1:%d" % k] = {"replies": [{"k": "custom", "pdu": "report", "varbinds": []}]}
@@ -204,8 +209,11 @@ class C06(Prop):
                 return out
         if len(exs) > 1:
             run.sim.count("probe.multi-request-walk")
-        a = model_walk(base, bulk, replies, False)
-        b = model_walk(base, bulk, replies, True)
+        rt = op.get("retry", 0)
+        if res["ok"].get("retried_at"):
+            run.sim.count("probe.walk-retried-after-timeout")
+        a = model_walk(base, bulk, replies, False, rt)
+        b = model_walk(base, bulk, replies, True, rt)
         if (a[0], a[1]) != (b[0], b[1]):
             run.sim.count("probe.readings-differ")
         ok = False
